@@ -2009,6 +2009,7 @@ impl CommandParser {
                         .and_then(|n| u64::try_from(n).ok()).filter(|n| *n > 0)
                         .ok_or(FerrousError::Command(CommandError::SyntaxError("invalid expire time in 'set' command".to_string())))?;
                     options.expiration = Some(if opt == "EX" { Duration::from_secs(n) } else { Duration::from_millis(n) });
+                    crate::storage::StorageEngine::check_ttl(options.expiration.unwrap())?;
                     i += 2;
                 }
                 _ => return Err(FerrousError::Command(CommandError::SyntaxError("Unknown SET option".to_string()))),
